@@ -232,6 +232,8 @@ class Gen(object):
             p["val_card"] = r.choice([[None, 5], [1, None], [0, 4]])
         if r.random() < 0.85:
             p["oid"] = self.oid()
+        if r.random() < 0.1:
+            p["name"] = None              # unnamed: the library names it by its id
         return p
 
     def sec(self, name, depth, budget):
@@ -248,6 +250,8 @@ class Gen(object):
                 break
             budget[0] -= 1
             s["props"].append(self.prop(nm))
+        if depth > 1 and r.random() < 0.1:
+            s["name"] = None              # unnamed Section below the top level (named by its id)
         if depth < 3:
             for nm in r.sample(NAMES, r.choice([0, 0, 1, 1, 2])):
                 if budget[0] <= 0:
